@@ -791,6 +791,14 @@ Ltac get_str sid t :=
       rewrite (bindM_ok _ _ _ _ _ H); clear H
   end.
 
+Ltac enter_raw Hok s1 :=
+  let Hrun := fresh "Hrun" in
+  match goal with
+  | |- context [run_builtin ?f ?args ?s] =>
+      destruct (call_enter f args s Hok) as (s1 & Hrun & ?Htop & ?Hst1 & ?Hhp1 & ?Hsp1);
+      rewrite Hrun; clear Hrun
+  end.
+
 Ltac close_fail :=
   do 3 eexists; split; [reflexivity|]; rewrite ?st_pop1, ?hp_pop1; split; congruence.
 
@@ -1037,4 +1045,138 @@ Proof.
       pop_with opt_pop_index_true_top E.
       destruct (as_index x) as [i|] eqn:Hx; [discriminate|]. cbn [opt_res option_map] in E.
       use_err E. finish_fail.
+Qed.
+
+(* the common prefix of string-copy / string->list / string-fill!: the end index is
+   popped first, then the start index *)
+Definition is_some {A} (o : option A) : bool := match o with Some _ => true | None => false end.
+
+Lemma pop_range {A} (k : option N -> option N -> M A) s0 a b rest :
+  top_is s0 (rev (range_args a b) ++ rest) -> opt_imm a -> opt_imm b ->
+  exists s2, st s2 = st s0 /\ hp s2 = hp s0 /\
+    match range_decode a b with
+    | Some (start, end_) =>
+        (dom e <- opt_pop_index (is_some (range_end_arg a b));
+         dom st <- opt_pop_index (is_some a); k st e) s0 = k start end_ s2
+        /\ top_is s2 rest /\ sp s2 = sp s0 - len (range_args a b)
+    | None =>
+        (dom e <- opt_pop_index (is_some (range_end_arg a b));
+         dom st <- opt_pop_index (is_some a); k st e) s0 = RErr E_OTHER [] s2
+    end.
+Proof.
+  intros Ht Ha Hb. unfold range_decode.
+  destruct a as [x|]; [destruct b as [y|]|]; cbn [range_args range_end_arg is_some rev app opt_imm] in *.
+  - destruct (opt_pop_index_true_top _ _ _ Ht Hb) as [E1 T1].
+    destruct (opt_pop_index_true_top _ _ _ T1 Ha) as [E2 T2].
+    destruct (as_index y) as [j|]; cbn [opt_res option_map] in E1.
+    + rewrite (bindM_ok _ _ _ _ _ E1).
+      destruct (as_index x) as [i|]; cbn [opt_res option_map] in E2.
+      * exists (pop1 (pop1 s0)). rewrite (bindM_ok _ _ _ _ _ E2).
+        split; [reflexivity|]. split; [reflexivity|]. split; [reflexivity|]. split; [exact T2|].
+        rewrite !sp_pop1. reduce_len. lia.
+      * exists (pop1 (pop1 s0)). rewrite (bindM_err _ _ _ _ _ _ E2).
+        split; [reflexivity|]. split; reflexivity.
+    + exists (pop1 s0). rewrite (bindM_err _ _ _ _ _ _ E1).
+      split; [reflexivity|]. split; [reflexivity|]. now destruct (as_index x).
+  - destruct (opt_pop_index_true_top _ _ _ Ht Ha) as [E2 T2].
+    rewrite (bindM_ok _ _ _ _ _ (opt_pop_index_false _)).
+    destruct (as_index x) as [i|]; cbn [opt_res option_map] in E2.
+    + exists (pop1 s0). rewrite (bindM_ok _ _ _ _ _ E2).
+      split; [reflexivity|]. split; [reflexivity|]. split; [reflexivity|]. split; [exact T2|].
+      rewrite !sp_pop1. reduce_len. lia.
+    + exists (pop1 s0). rewrite (bindM_err _ _ _ _ _ _ E2).
+      split; [reflexivity|]. split; reflexivity.
+  - exists s0. rewrite (bindM_ok _ _ _ _ _ (opt_pop_index_false _)).
+    rewrite (bindM_ok _ _ _ _ _ (opt_pop_index_false _)).
+    split; [reflexivity|]. split; [reflexivity|]. split; [reflexivity|]. split; [exact Ht|].
+    reduce_len. lia.
+Qed.
+
+Lemma range_args_len a b : len (range_args a b) <= 2.
+Proof. destruct a, b; unfold len; cbn; lia. Qed.
+
+Lemma range_flag_end k a b :
+  (k + len (range_args a b) =? k + 2) = is_some (range_end_arg a b).
+Proof.
+  destruct a, b; cbn [range_args range_end_arg is_some]; unfold len; cbn [length N.of_nat Pos.of_succ_nat Pos.succ];
+    [apply N.eqb_refl | apply N.eqb_neq; lia | apply N.eqb_neq; lia | apply N.eqb_neq; lia].
+Qed.
+Lemma range_flag_start k a b :
+  ((k + len (range_args a b) =? k + 1) || (k + len (range_args a b) =? k + 2)) = is_some a.
+Proof.
+  destruct a, b; cbn [range_args is_some]; unfold len; cbn [length N.of_nat Pos.of_succ_nat Pos.succ].
+  - replace (k + 2 =? k + 1) with false by (symmetry; apply N.eqb_neq; lia). now rewrite N.eqb_refl.
+  - now rewrite N.eqb_refl.
+  - replace (k + 0 =? k + 1) with false by (symmetry; apply N.eqb_neq; lia).
+    now replace (k + 0 =? k + 2) with false by (symmetry; apply N.eqb_neq; lia).
+  - replace (k + 0 =? k + 1) with false by (symmetry; apply N.eqb_neq; lia).
+    now replace (k + 0 =? k + 2) with false by (symmetry; apply N.eqb_neq; lia).
+Qed.
+
+(* apply pop_range to the two optional pops at the head of the goal *)
+Ltac pop_range_ a b rest :=
+  match goal with
+  | Ht : top_is ?s0 _
+    |- context [bindM (opt_pop_index _) (fun e => bindM (opt_pop_index _) (fun st => @?k st e)) ?s0] =>
+      let s2 := fresh "s2" in
+      destruct (pop_range k s0 a b rest Ht ltac:(assumption) ltac:(assumption))
+        as (s2 & ?Hst2 & ?Hhp2 & ?Hm); clear Ht
+  end.
+
+(* string-fill! (two to four arguments) *)
+Theorem string_fill_refines s sid t c a b :
+  stack_ok s -> tget (strs (st s)) sid = Some t -> opt_imm a -> opt_imm b ->
+  let r := run_builtin string_fill (VStr sid :: VChar c :: range_args a b) s in
+  match range_decode a b with
+  | Some (start, end_) =>
+      if range_ok t start end_
+      then returns r s VVoid
+             (set_str (st s) sid (spec_fill t (range_start start) (range_end t end_) c))
+      else fails r s
+  | None => fails r s
+  end.
+Proof.
+  intros Hok Hs Ha Hb r. subst r.
+  pose proof (range_args_len a b) as Hl.
+  (* the pops up to and including start / end, common to the three outcomes *)
+  assert (Hpre : exists s2, st s2 = st s /\ hp s2 = hp s /\
+     match range_decode a b with
+     | Some (start, end_) =>
+         run_builtin string_fill (VStr sid :: VChar c :: range_args a b) s =
+         (dom c <- pop_char; dom sid <- pop_string; dom t <- str_get sid;
+          dom t' <- lift (string_fill_core t start end_ c);
+          dom _ <- str_set sid t'; ret VVoid) s2
+         /\ top_is s2 [VChar c; VStr sid] /\ sp s2 = sp s + 2
+     | None => run_builtin string_fill (VStr sid :: VChar c :: range_args a b) s = RErr E_OTHER [] s2
+     end).
+  { enter_raw Hok s1.
+    replace (len (VStr sid :: VChar c :: range_args a b)) with (2 + len (range_args a b)) in *
+      by (rewrite !len_length; cbn [length]; lia).
+    cbn [rev] in Htop. rewrite <- !app_assoc in Htop. cbn [app] in Htop.
+    unfold string_fill. pop_argc_ 2 (Some 4).
+    rewrite (range_flag_start 2 a b :
+      ((2 + len (range_args a b) =? 3) || (2 + len (range_args a b) =? 4)) = is_some a).
+    rewrite (range_flag_end 2 a b : (2 + len (range_args a b) =? 4) = is_some (range_end_arg a b)).
+    pop_range_ a b [VChar c; VStr sid]. rewrite st_pop1 in Hst2. rewrite hp_pop1 in Hhp2.
+    exists s2. split; [congruence|]. split; [congruence|].
+    destruct (range_decode a b) as [[start end_]|].
+    - destruct Hm as (Hm & T2 & Hsp2). split; [exact Hm|]. split; [exact T2|].
+      rewrite sp_pop1 in Hsp2. lia.
+    - exact Hm. }
+  destruct Hpre as (s2 & Hst2 & Hhp2 & Hm).
+  destruct (range_decode a b) as [[start end_]|] eqn:Hd.
+  - destruct Hm as (Hm & T2 & Hsp2). rewrite Hm.
+    pose proof (range_decode_args_ok _ _ _ Hd) as Hargs. cbn [fst snd] in Hargs.
+    pop_with pop_char_top E. cbn [as_char opt_res] in E. use_ok E.
+    pop_with pop_string_top E. cbn [as_string opt_res] in E. use_ok E.
+    assert (Hg : str_get sid (pop1 (pop1 s2)) = ROk t (pop1 (pop1 s2)))
+      by (apply str_get_ok; rewrite !st_pop1; congruence).
+    rewrite (bindM_ok _ _ _ _ _ Hg).
+    rewrite (string_fill_core_spec t start end_ c Hargs).
+    destruct (range_ok t start end_); cbn [lift bindM].
+    + rewrite (bindM_ok _ _ _ _ _ (str_set_run _ _ _)). unfold ret. norm_state.
+      rewrite Hst2. eexists. split; [reflexivity|]. norm_state.
+      repeat split; try congruence. lia.
+    + do 3 eexists. split; [reflexivity|]. norm_state. split; congruence.
+  - rewrite Hm. do 3 eexists. split; [reflexivity|]. split; congruence.
 Qed.
